@@ -4,6 +4,9 @@
 //! (10 7 shape data ops): a history of safe Tensor mutators (valid and invalid arguments, panicking
 //! closures, writes through adaptor stacks built over `&mut tensor`), the tensor dumped through the
 //! checked getter and through the (unchecked, hooked) iterators after EVERY step.
+//! (10 9 term): TensorStack / TensorChain constructor walks; wave 2: `term` may also be ONE
+//! TensorIndex `(3 inner ((name index)))` or TensorExpansion `(4 inner ((position name)))` over a
+//! chain / stack term (nested views, walked through every checked / unchecked / iterator path).
 use crate::guarded;
 use crate::sx::*;
 use easy_ml::matrices::Matrix;
@@ -90,40 +93,112 @@ fn walk<S: TensorMut<i64, D>, const D: usize>(mk: impl FnOnce() -> S) -> Sx {
     ok(l(vec![shape_sx(&shape), l(checked.into_iter().map(|x| opt(x.map(z))).collect())]))
 }
 
-fn chain_walk<const D: usize>(leaves: &[LeafSpec], along: usize, kind: i64) -> Sx {
+// ---- wave 2: ONE outer TensorIndex / TensorExpansion over a chain / stack ----
+// `(3 inner ((name index)))` = TensorIndex::from(inner, [(name, index)]), `(4 inner ((position name)))`
+// = TensorExpansion::from(inner, [(position, name)]) in the term language of Run/RunC02.v, where
+// `inner` is a chain (10 ..) or stack (9 ..) term.  The inner view is handed over as
+// Box<dyn TensorMut> (index-transparent, traits.rs:183-225) so that one outer adaptor type per
+// dimensionality serves every arity / tuple form; both constructors run under ONE catch_unwind.
+use easy_ml::tensors::views::{TensorExpansion, TensorIndex};
+
+type Inner<const D: usize> = Box<dyn TensorMut<i64, D>>;
+type MkInner<const D: usize> = Box<dyn FnOnce() -> Inner<D>>;
+
+#[derive(Clone, Copy)]
+enum Outer {
+    None,
+    Index(usize, usize),
+    Expand(usize, usize),
+}
+
+trait OuterWalk<const D: usize> {
+    fn go(outer: Outer, mk: MkInner<D>) -> Sx;
+}
+struct Ow;
+
+impl OuterWalk<0> for Ow {
+    fn go(outer: Outer, mk: MkInner<0>) -> Sx {
+        match outer {
+            Outer::Expand(p, n) => walk::<_, 1>(move || TensorExpansion::<i64, Inner<0>, 0, 1>::from(mk(), [(p, dim(n))])),
+            _ => bad_case(),
+        }
+    }
+}
+macro_rules! outer_walk_impl {
+    ($d:literal, $dm1:literal, $dp1:literal) => {
+        impl OuterWalk<$d> for Ow {
+            fn go(outer: Outer, mk: MkInner<$d>) -> Sx {
+                match outer {
+                    Outer::Index(n, i) => walk::<_, $dm1>(move || TensorIndex::<i64, Inner<$d>, $d, 1>::from(mk(), [(dim(n), i)])),
+                    Outer::Expand(p, n) => walk::<_, $dp1>(move || TensorExpansion::<i64, Inner<$d>, $d, 1>::from(mk(), [(p, dim(n))])),
+                    Outer::None => bad_case(),
+                }
+            }
+        }
+    };
+}
+outer_walk_impl!(1, 0, 2);
+outer_walk_impl!(2, 1, 3);
+outer_walk_impl!(3, 2, 4);
+outer_walk_impl!(4, 3, 5);
+impl OuterWalk<5> for Ow {
+    fn go(_: Outer, _: MkInner<5>) -> Sx {
+        bad_case()
+    }
+}
+impl OuterWalk<6> for Ow {
+    fn go(_: Outer, _: MkInner<6>) -> Sx {
+        bad_case()
+    }
+}
+
+/// the plain walk of the constructed view, or the walk of the outer adaptor over it
+macro_rules! fin {
+    ($outer:expr, $d:tt, $e:expr) => {
+        match $outer {
+            Outer::None => walk::<_, $d>(move || $e),
+            o => <Ow as OuterWalk<$d>>::go(o, Box::new(move || Box::new($e) as Inner<$d>)),
+        }
+    };
+}
+
+fn chain_walk<const D: usize>(leaves: &[LeafSpec], along: usize, kind: i64, outer: Outer) -> Sx
+where
+    Ow: OuterWalk<D>,
+{
     let Some(ts) = leaves.iter().map(mk_leaf::<D>).collect::<Option<Vec<Tensor<i64, D>>>>() else { return bad_case() };
     let along = dim(along);
     let mut it = ts.into_iter();
     let mut nx = || it.next().unwrap();
     match (kind, leaves.len()) {
-        (0, 1) => { let s = [nx()]; walk::<_, D>(move || TensorChain::<i64, [_; 1], D>::from(s, along)) }
-        (0, 2) => { let s = [nx(), nx()]; walk::<_, D>(move || TensorChain::<i64, [_; 2], D>::from(s, along)) }
-        (0, 3) => { let s = [nx(), nx(), nx()]; walk::<_, D>(move || TensorChain::<i64, [_; 3], D>::from(s, along)) }
-        (0, 4) => { let s = [nx(), nx(), nx(), nx()]; walk::<_, D>(move || TensorChain::<i64, [_; 4], D>::from(s, along)) }
-        (0, 5) => { let s = [nx(), nx(), nx(), nx(), nx()]; walk::<_, D>(move || TensorChain::<i64, [_; 5], D>::from(s, along)) }
-        (1, 2) => { let s = (nx(), nx()); walk::<_, D>(move || TensorChain::<i64, (_, _), D>::from(s, along)) }
-        (1, 3) => { let s = (nx(), nx(), nx()); walk::<_, D>(move || TensorChain::<i64, (_, _, _), D>::from(s, along)) }
-        (1, 4) => { let s = (nx(), nx(), nx(), nx()); walk::<_, D>(move || TensorChain::<i64, (_, _, _, _), D>::from(s, along)) }
+        (0, 1) => { let s = [nx()]; fin!(outer, D, TensorChain::<i64, [_; 1], D>::from(s, along)) }
+        (0, 2) => { let s = [nx(), nx()]; fin!(outer, D, TensorChain::<i64, [_; 2], D>::from(s, along)) }
+        (0, 3) => { let s = [nx(), nx(), nx()]; fin!(outer, D, TensorChain::<i64, [_; 3], D>::from(s, along)) }
+        (0, 4) => { let s = [nx(), nx(), nx(), nx()]; fin!(outer, D, TensorChain::<i64, [_; 4], D>::from(s, along)) }
+        (0, 5) => { let s = [nx(), nx(), nx(), nx(), nx()]; fin!(outer, D, TensorChain::<i64, [_; 5], D>::from(s, along)) }
+        (1, 2) => { let s = (nx(), nx()); fin!(outer, D, TensorChain::<i64, (_, _), D>::from(s, along)) }
+        (1, 3) => { let s = (nx(), nx(), nx()); fin!(outer, D, TensorChain::<i64, (_, _, _), D>::from(s, along)) }
+        (1, 4) => { let s = (nx(), nx(), nx(), nx()); fin!(outer, D, TensorChain::<i64, (_, _, _, _), D>::from(s, along)) }
         _ => bad_case(),
     }
 }
 
 macro_rules! stack_walk_impl {
     ($name:ident, $d:literal, $d1:literal) => {
-        fn $name(leaves: &[LeafSpec], along: (usize, usize), kind: i64) -> Sx {
+        fn $name(leaves: &[LeafSpec], along: (usize, usize), kind: i64, outer: Outer) -> Sx {
             let Some(ts) = leaves.iter().map(mk_leaf::<$d>).collect::<Option<Vec<Tensor<i64, $d>>>>() else { return bad_case() };
             let along = (along.0, dim(along.1));
             let mut it = ts.into_iter();
             let mut nx = || it.next().unwrap();
             match (kind, leaves.len()) {
-                (0, 1) => { let s = [nx()]; walk::<_, $d1>(move || TensorStack::<i64, [_; 1], $d>::from(s, along)) }
-                (0, 2) => { let s = [nx(), nx()]; walk::<_, $d1>(move || TensorStack::<i64, [_; 2], $d>::from(s, along)) }
-                (0, 3) => { let s = [nx(), nx(), nx()]; walk::<_, $d1>(move || TensorStack::<i64, [_; 3], $d>::from(s, along)) }
-                (0, 4) => { let s = [nx(), nx(), nx(), nx()]; walk::<_, $d1>(move || TensorStack::<i64, [_; 4], $d>::from(s, along)) }
-                (0, 5) => { let s = [nx(), nx(), nx(), nx(), nx()]; walk::<_, $d1>(move || TensorStack::<i64, [_; 5], $d>::from(s, along)) }
-                (1, 2) => { let s = (nx(), nx()); walk::<_, $d1>(move || TensorStack::<i64, (_, _), $d>::from(s, along)) }
-                (1, 3) => { let s = (nx(), nx(), nx()); walk::<_, $d1>(move || TensorStack::<i64, (_, _, _), $d>::from(s, along)) }
-                (1, 4) => { let s = (nx(), nx(), nx(), nx()); walk::<_, $d1>(move || TensorStack::<i64, (_, _, _, _), $d>::from(s, along)) }
+                (0, 1) => { let s = [nx()]; fin!(outer, $d1, TensorStack::<i64, [_; 1], $d>::from(s, along)) }
+                (0, 2) => { let s = [nx(), nx()]; fin!(outer, $d1, TensorStack::<i64, [_; 2], $d>::from(s, along)) }
+                (0, 3) => { let s = [nx(), nx(), nx()]; fin!(outer, $d1, TensorStack::<i64, [_; 3], $d>::from(s, along)) }
+                (0, 4) => { let s = [nx(), nx(), nx(), nx()]; fin!(outer, $d1, TensorStack::<i64, [_; 4], $d>::from(s, along)) }
+                (0, 5) => { let s = [nx(), nx(), nx(), nx(), nx()]; fin!(outer, $d1, TensorStack::<i64, [_; 5], $d>::from(s, along)) }
+                (1, 2) => { let s = (nx(), nx()); fin!(outer, $d1, TensorStack::<i64, (_, _), $d>::from(s, along)) }
+                (1, 3) => { let s = (nx(), nx(), nx()); fin!(outer, $d1, TensorStack::<i64, (_, _, _), $d>::from(s, along)) }
+                (1, 4) => { let s = (nx(), nx(), nx(), nx()); fin!(outer, $d1, TensorStack::<i64, (_, _, _, _), $d>::from(s, along)) }
                 _ => bad_case(),
             }
         }
@@ -136,6 +211,23 @@ stack_walk_impl!(stack_walk_3, 3, 4);
 
 fn view_walk(term: &Sx) -> Sx {
     let Some(v) = term.list() else { return bad_case() };
+    // (3 inner ((name index))) / (4 inner ((position name))): one outer adaptor over a chain / stack
+    if let (Some(tag @ (3 | 4)), 3) = (v.first().and_then(|x| x.i64()), v.len()) {
+        let Some(ps) = v[2].pairs_usize() else { return bad_case() };
+        if ps.len() != 1 {
+            return bad_case();
+        }
+        let outer = if tag == 3 { Outer::Index(ps[0].0, ps[0].1) } else { Outer::Expand(ps[0].0, ps[0].1) };
+        return match v[1].list().and_then(|w| w.first()).and_then(|x| x.i64()) {
+            Some(9) | Some(10) => view_walk_with(&v[1], outer),
+            _ => bad_case(),
+        };
+    }
+    view_walk_with(term, Outer::None)
+}
+
+fn view_walk_with(term: &Sx, outer: Outer) -> Sx {
+    let Some(v) = term.list() else { return bad_case() };
     match (v.first().and_then(|x| x.i64()), v.len()) {
         (Some(10), 4) => {
             let (Some(leaves), Some(along), Some(kind)) = (parse_leaves(&v[1]), v[2].usize(), v[3].i64()) else { return bad_case() };
@@ -143,7 +235,7 @@ fn view_walk(term: &Sx) -> Sx {
                 return bad_case();
             }
             let d = leaves[0].shape.len();
-            crate::with_d!(d, chain_walk(&leaves, along, kind))
+            crate::with_d!(d, chain_walk(&leaves, along, kind, outer))
         }
         (Some(9), 5) => {
             let (Some(leaves), Some(pos), Some(name), Some(kind)) = (parse_leaves(&v[1]), v[2].usize(), v[3].usize(), v[4].i64()) else { return bad_case() };
@@ -151,10 +243,10 @@ fn view_walk(term: &Sx) -> Sx {
                 return bad_case();
             }
             match leaves[0].shape.len() {
-                0 => stack_walk_0(&leaves, (pos, name), kind),
-                1 => stack_walk_1(&leaves, (pos, name), kind),
-                2 => stack_walk_2(&leaves, (pos, name), kind),
-                3 => stack_walk_3(&leaves, (pos, name), kind),
+                0 => stack_walk_0(&leaves, (pos, name), kind, outer),
+                1 => stack_walk_1(&leaves, (pos, name), kind, outer),
+                2 => stack_walk_2(&leaves, (pos, name), kind, outer),
+                3 => stack_walk_3(&leaves, (pos, name), kind, outer),
                 _ => bad_case(),
             }
         }
